@@ -35,6 +35,7 @@ type build struct {
 	scratch string // removed on exit
 	src     string // instrumented copy of the repository
 	simnode string
+	simref  string // the same harness built WITHOUT -race: isolated references
 	instr   instrReport
 	wall    time.Duration
 	repo    string
@@ -152,6 +153,10 @@ func buildSimnode(tag string) (*build, error) {
 	}
 	if out, err := run(h, goEnv(), "go", "build", "-race", "-o", b.simnode, "./harness"); err != nil {
 		return b, fmt.Errorf("go build -race of the instrumented tree failed: %v\n%s", err, out)
+	}
+	b.simref = filepath.Join(scratch, "simref")
+	if out, err := run(h, goEnv(), "go", "build", "-o", b.simref, "./harness"); err != nil {
+		return b, fmt.Errorf("go build of the instrumented tree (plain) failed: %v\n%s", err, out)
 	}
 	if out, err := run(repo, nil, "git", "rev-parse", "HEAD"); err == nil {
 		b.head = strings.TrimSpace(out)
